@@ -73,7 +73,7 @@ pub fn part_sweep(tier: Tier) -> Part {
 /// The same sweep over a C program (gcc line tables: no prologue_end marks, `main` from crt).
 pub fn part_c_binary(_tier: Tier) -> Part {
     let mut part = Part::new("dwarf-agreement-c-binary");
-    part.rule = "the address / line / function sweep of the first part over a C program built by the system C compiler (position independent and fixed address): its line table has no prologue_end marks, so a function breakpoint has to be found without them and must still lie inside the function it names".into();
+    part.rule = "the address / line / function sweep of the first part over a C program built by the system C compiler (position independent and fixed address): its line table has no prologue_end marks, so a function breakpoint has to be found without them and must still lie inside the function it names; further targets: a Rust program of two crates sharing a source file, and a C program of three files whose compilation units touch (the first instruction of a unit is the end address of the unit before)".into();
     let bins = match crate::c05c::build() {
         Ok(b) => b,
         Err(e) => {
@@ -87,6 +87,18 @@ pub fn part_c_binary(_tier: Tier) -> Part {
     match build_two_units() {
         Ok(exe) => targets.push(("rust two-units".to_string(), exe, "geo.rs", vec!["area", "scale", "twice", "main", "nosuchfn"])),
         Err(e) => part.violate("C04:machinery:two-units-build", e, json!({})),
+    }
+    // compilation units that touch: a C program of three files built without optimization has no
+    // padding between the objects, so the first instruction of a unit's first function is the
+    // end address of the unit before it
+    match build_c_adjacent() {
+        Ok(v) => {
+            for (tag, exe) in v {
+                targets.push((format!("c adjacent-units {tag} (ub.c)"), exe.clone(), "ub.c", vec!["ua_leaf", "ua_last", "ub_first", "ub_second", "main", "nosuchfn"]));
+                targets.push((format!("c adjacent-units {tag} (um.c)"), exe, "um.c", vec!["ua_last", "ub_first", "ub_second", "main"]));
+            }
+        }
+        Err(e) => part.violate("C04:machinery:c-adjacent-build", e, json!({})),
     }
     for (name, exe, file, fns) in &targets {
         let job = json!({"exe": exe, "args": [], "main_entry_sp": 0, "bt": false, "commands": [
@@ -152,6 +164,44 @@ fn main() {
     println!("{a} {b} {c}");
 }
 "#;
+
+const UA: &str = "int ua_leaf(int x) {\n    int y = x * 3;\n    return y + 1;\n}\nint ua_last(int x) {\n    int y = ua_leaf(x) + 2;\n    return y;\n}\n";
+const UB: &str = "int ub_first(int x) {\n    int y = x - 4;\n    return y * 2;\n}\nint ub_second(int x) {\n    int y = ub_first(x) + 5;\n    return y;\n}\n";
+const UM: &str = "#include <stdio.h>\nint ua_last(int);\nint ub_second(int);\nint ub_first(int);\nint main(void) {\n    int a = ua_last(3);\n    int b = ub_first(a);\n    int c = ub_second(b);\n    printf(\"%d %d %d\\n\", a, b, c);\n    return 0;\n}\n";
+
+/// Three C files, one compilation unit each, linked back to back (position independent and
+/// fixed address); fails if the units do not touch (the premise of the target).
+fn build_c_adjacent() -> Result<Vec<(String, String)>, String> {
+    let dir = build_dir().join("cadjacent");
+    std::fs::create_dir_all(&dir).map_err(|e| e.to_string())?;
+    for (n, t) in [("ua.c", UA), ("ub.c", UB), ("um.c", UM)] {
+        let p = dir.join(n);
+        if std::fs::read_to_string(&p).map(|x| x != t).unwrap_or(true) {
+            std::fs::write(&p, t).map_err(|e| e.to_string())?;
+        }
+    }
+    let mut out = vec![];
+    for (tag, flags) in [("pie", vec!["-fPIE", "-pie"]), ("nopie", vec!["-fno-pie", "-no-pie"])] {
+        let exe = dir.join(format!("adj-{tag}"));
+        if !exe.exists() {
+            let o = std::process::Command::new("cc").current_dir(&dir).args(["-g", "-O0"]).args(&flags).arg("-o").arg(&exe).args(["ua.c", "ub.c", "um.c"]).output().map_err(|e| e.to_string())?;
+            if !o.status.success() {
+                return Err(String::from_utf8_lossy(&o.stderr).to_string());
+            }
+        }
+        let e = exe.display().to_string();
+        let sym = |n: &str| crate::reftrace::text_symbol(&e, |s| s == n);
+        let info = crate::reftrace::elf_info(&e)?;
+        let end_of = |n: &str| info.symbols.iter().find(|(s, _, _)| s == n).map(|(_, a, sz)| a + sz);
+        let start_of = |n: &str| info.symbols.iter().find(|(s, _, _)| s == n).map(|(_, a, _)| *a);
+        let _ = sym;
+        if end_of("ua_last") != start_of("ub_first") || end_of("ub_second") != start_of("main") {
+            return Err(format!("[{tag}] the compilation units do not touch: ua_last ends at {:x?}, ub_first starts at {:x?}", end_of("ua_last"), start_of("ub_first")));
+        }
+        out.push((tag.to_string(), e));
+    }
+    Ok(out)
+}
 
 fn build_two_units() -> Result<String, String> {
     let dir = build_dir().join("twounits");
